@@ -40,9 +40,8 @@ func (m *modset) union(o *modset) {
 	if o.all {
 		m.all = true
 	}
-	if o.argReach {
-		m.argReach = true
-	}
+	// argReach ("the callee may write objects reachable from ITS arguments") is a fact about one call site: it is not
+	// inherited by callers; what such a call may write is propagated as type-level keys (argTypeKeys)
 	for s, k := range o.comps {
 		m.comps[s] = k
 	}
@@ -185,6 +184,7 @@ func (e *Engine) modsetOfCallee(c *ssa.CallCommon, visiting map[*ssa.Function]bo
 			}
 		}
 		out.argReach = true
+		argTypeKeys(c, out)
 		for _, fn := range e.implementors(c) {
 			out.union(e.modsetOfFunc(fn, visiting))
 		}
@@ -192,7 +192,12 @@ func (e *Engine) modsetOfCallee(c *ssa.CallCommon, visiting map[*ssa.Function]bo
 	}
 	switch v := c.Value.(type) {
 	case *ssa.Function:
-		out.union(e.modsetOfFunc(v, visiting))
+		ms := e.modsetOfFunc(v, visiting)
+		out.union(ms)
+		if ms.argReach {
+			out.argReach = true
+			argTypeKeys(c, out)
+		}
 	case *ssa.MakeClosure:
 		out.union(e.modsetOfFunc(v.Fn.(*ssa.Function), visiting))
 	default:
